@@ -21,6 +21,22 @@ def R(mod, name, cfg="rc"):
 
 
 PROPS = {
+    "C10": dict(
+        rules=[R("front", "rule_indent"), R("front", "rule_indent_chain")],
+        clause="Second sentence only: for each construct the property lists, the parser path on which the block / "
+               "right-hand side is missing constructs an error of the ExpectedIndentation class and nothing else "
+               "(R-INDENT), and the flag survives every wrapper up to koto::Error::is_indentation_error "
+               "(R-INDENT-CHAIN). Not decided: equivalence of layout variants (first sentence), 'never after a "
+               "complete statement'.",
+        technique="generic-argument census of the parser's error constructors + MIR region/dominance analysis",
+    ),
+    "C11": dict(
+        rules=[R("front", "rule_fmt_fields"), R("front", "rule_fmt_variants")],
+        clause="Every syntax-carrying AST field is read by the formatter (R-FMT-FIELDS) and every Node variant has its "
+               "own arm in format_node (R-FMT-VARIANTS): a field never read cannot influence the output. Not decided: "
+               "idempotence, comment order, Unicode slicing, how a field that is read gets rendered.",
+        technique="field-read census over koto_format's MIR against the AST's ADT facts; HIR arm list",
+    ),
     "C13": dict(
         rules=[R("iters", "rule_iter_copy"), R("iters", "rule_iter_err"), R("iters", "rule_iter_lazy")],
         clause="Copies own copied inner iterators (R-ITER-COPY); iterator outputs that may carry an error are never "
@@ -108,8 +124,6 @@ NOT_APPLICABLE = {
            "bytecode; no clause is visible in the shape of the Rust code (DESIGN.md section 5)",
     "C09": "every clause constrains numeric cursor values computed from the input's characters; no structural "
            "necessary condition exists (DESIGN.md section 5)",
-    "C10": "rules not built yet",
-    "C11": "rules not built yet",
     "C14": "rules not built yet",
     "C15": "rules not built yet",
     "C16": "rules not built yet",
